@@ -480,7 +480,7 @@ func ruleServersReset(c *Ctx) {
 	n := 0
 	bad := []string{}
 	sawClose, sawUpdate, sawNew := false, false, false
-	sim := c.P.Simulate(fn, SimConfig{Inline: inlineNested(fn)}, func(pr *PathResult) {
+	sim := c.P.Simulate(fn, SimConfig{Inline: orHelpers(fn, inlineNested(fn))}, func(pr *PathResult) {
 		n++
 		where := "path [" + condString(pr.Conds) + "]"
 		for _, e := range pr.Events {
